@@ -12,6 +12,8 @@ def one(sid: str):
     p = V / "seeded" / sid
     det = seed_eval.detect(p / "patch.diff")
     m = json.loads((p / "meta.json").read_text())
+    if m.get("retired"):
+        return f"{sid} retired; still reported by: {sorted(det)} (anything listed here is a false alarm)"
     m["detected_by"] = det
     m["caught_by"] = sorted(k for k in det if not k.startswith("<"))
     (p / "meta.json").write_text(json.dumps(m, indent=1))
